@@ -141,8 +141,12 @@ func (u *Unit) Discharge(ctx context.Context, ro RunOpts, stats map[string]*Solv
 	wg.Wait()
 	if ro.Tier == "thorough" {
 		// cross-check: no other solver may contradict a discharged obligation
-		for _, s := range solvers[1:] {
-			ans, _, el2, _ := RunScript(ctx, s, script, hard)
+		// (short per-query budget: the cross-check looks for a solver that *refutes* a discharged
+		// obligation; a solver that merely needs long is not informative and would make the tier
+		// take hours on the big plans)
+		xs := Solvers(3000, ro.Seed)
+		for _, s := range xs[1:] {
+			ans, _, el2, _ := RunScript(ctx, s, script, time.Duration(len(proofs)*3000+20000)*time.Millisecond)
 			agree := 0
 			for i, ob := range proofs {
 				if i >= len(ans) {
